@@ -238,29 +238,34 @@ public:
 
   int compare(const String& other, usize len) const
   {
-    for(const char* s1 = *this, * s2 = other, * end1 = s1 + len; s1 < end1; ++s1, ++s2)
-      if(!*s1 || *s1 != *s2)
-        return (int)*(const uchar*)s1 - *(const uchar*)s2;
-    return 0;
+    usize len1 = data->len < len ? data->len : len, len2 = other.data->len < len ? other.data->len : len; // length delimited, like compare(other)
+    const uchar* s1 = (const uchar*)data->str, * s2 = (const uchar*)other.data->str;
+    for(const uchar* end = s1 + (len1 < len2 ? len1 : len2); s1 < end; ++s1, ++s2)
+      if(*s1 != *s2)
+        return (int)*s1 - *s2;
+    return len1 < len2 ? -1 : len1 > len2 ? 1 : 0;
   }
 
   int compareIgnoreCase(const String& other) const
   {
-    const char* s1 = *this, * s2 = other;
+    const char* s1 = data->str, * s2 = other.data->str;
+    usize len = data->len < other.data->len ? data->len : other.data->len;
     char c1, c2;
-    for(; (c1 = toLowerCase(*s1)) == (c2 = toLowerCase(*s2)); ++s1, ++s2)
-      if(!*s1)
-        return 0;
-    return (int)(const uchar&)c1 - (const uchar&)c2;
+    for(const char* end = s1 + len; s1 < end; ++s1, ++s2)
+      if((c1 = toLowerCase(*s1)) != (c2 = toLowerCase(*s2)))
+        return (int)(const uchar&)c1 - (const uchar&)c2;
+    return data->len < other.data->len ? -1 : data->len > other.data->len ? 1 : 0;
   }
 
   int compareIgnoreCase(const String& other, usize len) const
   {
+    usize len1 = data->len < len ? data->len : len, len2 = other.data->len < len ? other.data->len : len;
+    const char* s1 = data->str, * s2 = other.data->str;
     char c1, c2;
-    for(const char* s1 = *this, * s2 = other, * end1 = s1 + len; s1 < end1; ++s1, ++s2)
-      if((c1 = toLowerCase(*s1)) != (c2 = toLowerCase(*s2)) || !*s1)
+    for(const char* end = s1 + (len1 < len2 ? len1 : len2); s1 < end; ++s1, ++s2)
+      if((c1 = toLowerCase(*s1)) != (c2 = toLowerCase(*s2)))
         return (int)(const uchar&)c1 - (const uchar&)c2;
-    return 0;
+    return len1 < len2 ? -1 : len1 > len2 ? 1 : 0;
   }
 
   bool equalsIgnoreCase(const String& other) const {return data->len == other.data->len && compareIgnoreCase(other) == 0;}
